@@ -23,7 +23,7 @@ for pid in ids:
         "evidence_file": f"/verif/evidence/{pid}.json",
         "replay_cmd_template": f"./check {pid} --replay {{path}}",
         "engine": "govc",
-        "level_claimed": {"category": "proof", "text": c['text'], "design_ref": c.get('design_ref', 'DESIGN.md §6 ' + pid)},
+        "level_claimed": {"category": "proof", "text": c['text'], "design_ref": c.get('design_ref', 'DESIGN.md §0 (as-built table), §9.3 (status), §6 ' + pid + ' (design)')},
         "level_note": c['note'],
         "technique": TECH,
     })
